@@ -198,6 +198,16 @@ def _gen_variants(rng, gene, contig_seq, opts):
         v["region"] = _region_of(gene, g)
         taken.append(span)
         gene["variants"][v["id"]] = v
+    # a substitution on the very first / last base of the RefSeq-mapped range
+    if opts.get("edge_variant"):
+        for g in ([g1 - 1] if opts["edge_variant"] == "last" else [g0] if opts["edge_variant"] == "first" else [g0, g1 - 1]):
+            if any(abs(v["g"] - g) < 3 for v in gene["variants"].values()):
+                continue
+            ref = seq[g]
+            vid += 1
+            gene["variants"][f"v{vid}"] = {"kind": "snp", "g": g, "ref": ref, "id": f"v{vid}", "edge": True,
+                                           "alt": rng.choice([x for x in "ACGT" if x != ref]),
+                                           "region": _region_of(gene, g)}
     # multi-allelic sites: a second substitution at the position of an existing one
     if opts.get("multiallelic"):
         snps = [v for v in gene["variants"].values() if v["kind"] == "snp"]
@@ -214,7 +224,8 @@ def _gen_variants(rng, gene, contig_seq, opts):
     ids.sort(key=lambda k: gene["variants"][k]["kind"] != "mnp")
     nfunc = max(1, (len(ids) + 1) // 2)
     for i, k in enumerate(ids):
-        gene["variants"][k]["func"] = i < nfunc or gene["variants"][k]["kind"] == "mnp"
+        gene["variants"][k]["func"] = (i < nfunc or gene["variants"][k]["kind"] == "mnp"
+                                       or bool(gene["variants"][k].get("edge")))
         gene["variants"][k]["rsid"] = f"rs{1000 + int(k[1:])}" if rng.random() < 0.7 else "-"
 
 
@@ -232,6 +243,8 @@ def _gen_alleles(rng, gene, opts):
     num = 2
     # singles first, then combinations (ambiguous catalogues on request)
     cand = []
+    # variants on the edge of the mapped range come first so that they always get an allele
+    func = sorted(func, key=lambda k: not vs[k].get("edge"))
     for f in func:
         cand.append((f,))
     if opts.get("ambiguous") and len(func) >= 2:
